@@ -7,7 +7,7 @@ V = os.path.dirname(os.path.dirname(os.path.abspath(__file__)))
 res = {}
 for f in sys.argv[1:]:
     for line in open(f, errors="replace"):
-        m = re.match(r"^(C\d+_\d+) (C\d+) demo_rc=(\S+) check_rc=(\S+) :: (.*)$", line.strip())
+        m = re.match(r"^(C\d+_\d+) (C\d+) demo_rc=(\S+) check_rc=(\S+) ::\s*(.*)$", line.strip())
         if m:
             sid, prop, demo, rc, rest = m.groups()
             sigs = re.findall(r"monitor=(\S+) signature=(\S+)", rest)
@@ -18,18 +18,23 @@ for d in sorted(glob.glob(os.path.join(V, "seeded", "C*_*")), key=lambda p: (p.s
     meta = json.load(open(os.path.join(d, "meta.json")))
     prop, demo, rc, sigs = res.get(sid, (meta["property"], "?", "not run", []))
     verdict = {"1": "caught", "0": "MISSED", "2": "inconclusive"}.get(rc, rc)
-    if demo == "0":
-        verdict = "neutralised (demonstration no longer fails on the current tree)"
+    if demo == "0" and rc == "1":
+        verdict = "caught (by another witness: its own demonstration no longer fails on the current tree)"
+    elif demo == "0":
+        verdict = "neutralised by a later fix: commit (its demonstration no longer fails on the current tree; nothing reported)"
     first = "; ".join(f"{m}: {s}" for m, s in sigs[:2])
     patch = "patch_rebased.diff" if os.path.exists(os.path.join(d, "patch_rebased.diff")) else "patch.diff"
     rows.append(f"| {sid} | {meta['summary'][:230].replace('|', '/')} | {verdict} | {first[:260].replace('|', '/')} | {patch} |")
-caught = sum(1 for r in rows if "| caught |" in r)
+caught = sum(1 for r in rows if "| caught" in r)
 with open(os.path.join(V, "seeded", "RESULTS.md"), "w") as f:
     f.write("# Seeded changes against the checks\n\n")
     f.write("Produced by independent sub-agents that saw only the text of one property and a scratch worktree (never /verif).\n")
-    f.write("Every change applies to the current /repo HEAD, passes the repository's own suite (tools/seed_audit.sh) and comes with a\n")
+    f.write("Every change applied to the /repo HEAD of its time, passed the repository's own suite (tools/seed_audit.sh) and comes with a\n")
     f.write("demonstration that exits 0 on the unchanged tree and 1 with the change. Verdicts are from `tools/seed_matrix.sh quick`\n")
-    f.write("(check of the change's property, quick tier, VERIF_SEED=0, scratch worktree via VF_REPO_DIR).\n\n")
+    f.write("(check of the change's property, quick tier, VERIF_SEED=0, scratch worktree via VF_REPO_DIR) at the final HEAD; each\n")
+    f.write("meta.json records the audit and check lines. At the final HEAD three changes are neutralised by later fix: commits\n")
+    f.write("(C04_2, C08_3, C10_4: their demonstrations pass with the patch), and three (C09_2, C10_3, C14_3: the same lost\n")
+    f.write("try/finally in sub_defaults_context) now also make 5 of the repository's own tests fail, which they did not when written.\n\n")
     f.write(f"{caught} of {len(rows)} caught in the quick tier.\n\n")
     f.write("| id | change | verdict | first signatures reported | patch |\n|---|---|---|---|---|\n")
     f.write("\n".join(rows) + "\n")
